@@ -173,7 +173,7 @@ class Contract:
         return s.result
 
     # ---- verification of the body
-    def verify(self, reg, mutate_goal=None):
+    def verify(self, reg, mutate_goal=None, path_limit=None):
         """Returns (obligations, paths, notes). Raises OutOfSubset if the body leaves the subset."""
         real = self.real
         fnode = func_ast(real)[0]
@@ -236,7 +236,7 @@ class Contract:
                 ctx.prove(f"post:{lab}", t, kind="post", assume_after=False)
             return ("return", None)
 
-        results = explore(run, max_paths=self.max_paths)
+        results = explore(run, max_paths=self.max_paths, stop_after=path_limit)  # path_limit: canary sampling (runner), None = all paths
         n_paths = 0
         for ctx, out in results:
             n_paths += 1
